@@ -36,6 +36,9 @@ class PyObjV(V):
     def __deepcopy__(self, memo):
         return self
 
+    def as_callable(self):
+        return BoundBuiltin(self, "__call__")
+
 
 class DerivV(V):
     """gradient(f): the derivative of callable f (semantic summary of
@@ -300,6 +303,10 @@ class OpsMixin(object):
                 return FuncV(fi)
             if attr in c.class_attrs:
                 env = Env(module=c.module, label=c.fq)
+                # names of class attributes defined in the same class body are visible to the expression
+                for other, expr in c.class_attrs.items():
+                    if other != attr and any(isinstance(n, ast.Name) and n.id == other for n in ast.walk(c.class_attrs[attr])):
+                        env.vars[other] = self.class_attr(c, None, other, node)
                 return self.eval(c.class_attrs[attr], env)
         if attr == "__class__" and inst is not None:
             return ClassV(ci)
